@@ -291,7 +291,9 @@ def captured_expressions():
         "arrow": ["const", "id", "=", "async", "(", ")", "=>"],
     }
     out = {}
-    orig = scope_utils.find_all
+    # the header expression reaches the matcher through find_all or (with a follow-up pattern) find_candidates
+    entry_points = [n for n in ("find_all", "find_candidates") if hasattr(scope_utils, n)]
+    orig = {n: getattr(scope_utils, n) for n in entry_points}
     for lname, lang in sorted(Languages.by_name.items()):
         seen = []
 
@@ -299,11 +301,13 @@ def captured_expressions():
             _seen.append(expression)
             return []
 
-        scope_utils.find_all = rec
+        for n in entry_points:
+            setattr(scope_utils, n, rec)
         try:
             lang.extract_headers(make_tokens(["id", "(", ")", "{"]))
         finally:
-            scope_utils.find_all = orig
+            for n in entry_points:
+                setattr(scope_utils, n, orig[n])
         out[lname] = seen
     _CAPTURED = out
     return out
